@@ -263,19 +263,25 @@ def setDefaults (env : Env) (cf : Cf δ) (sect : Bytes) : List Key → Store δ 
         let (st', ok) := cfSet env cf st sect k.name d
         if ok then setDefaults env cf sect t st' else (st'.note .fillDefaults, false)
 
+/-- the part of `fill_defaults` after `section_start` -/
+def finishDefaults (env : Env) (cf : Cf δ) (sect : Bytes) (s : Sect δ) (cur : Option Bytes) (got : Bool)
+    (st : Store δ) : Loader δ × Bool :=
+  if s.setKey.isSome then ({ store := st, curSect := cur, gotMain := got }, true)
+  else ({ store := (setDefaults env cf sect s.keys st).1, curSect := cur, gotMain := got },
+        (setDefaults env cf sect s.keys st).2)
+
 def fillDefaults (env : Env) (cf : Cf δ) (ld : Loader δ) (sect : Bytes) : Loader δ × Bool :=
   match findSect cf sect with
   | none => ({ ld with store := ld.store.note .fillDefaults }, false)
   | some (i, s) =>
-    let ld := if i == 0 then { ld with gotMain := true } else ld
-    let (store1, ok1) := match s.sectionStart with
-      | none => (ld.store, true)
-      | some f => let (u, ok) := f ld.store.user none sect; ({ ld.store with user := u }, ok)
-    if !ok1 then ({ ld with store := store1 }, false)
-    else if s.setKey.isSome then ({ ld with store := store1 }, true)
-    else
-      let (store2, ok2) := setDefaults env cf sect s.keys store1
-      ({ ld with store := store2 }, ok2)
+    -- `if (s == ctx->cf->sect_list) ctx->got_main_sect = true`
+    let got := ld.gotMain || i == 0
+    match s.sectionStart with
+    | none => finishDefaults env cf sect s ld.curSect got ld.store
+    | some f =>
+      match f ld.store.user none sect with
+      | (u, true) => finishDefaults env cf sect s ld.curSect got { ld.store with user := u }
+      | (u, false) => ({ store := { ld.store with user := u }, curSect := ld.curSect, gotMain := got }, false)
 
 def loadHandler (env : Env) (cf : Cf δ) (ld : Loader δ) : Event → Loader δ × Bool
   | .sect name => fillDefaults env cf { ld with curSect := some name } name
